@@ -78,6 +78,18 @@ func Choose(n int) int {
 	return v
 }
 
+// PickString returns one of the options (the engine keeps the choice symbolic: no fork).
+func PickString(opts ...string) string {
+	if len(opts) == 1 {
+		return opts[0]
+	}
+	v := int(next("Pick"))
+	if v < 0 || v >= len(opts) {
+		panic(assumeFailed{})
+	}
+	return opts[v]
+}
+
 func Assume(c bool) {
 	if !c {
 		panic(assumeFailed{})
